@@ -20,6 +20,10 @@ fn main() {
     compare(&args[2], &args[3]);
     return;
   }
+  if args[1] == "fcgen12" {
+    fcheck::dump_gen12(args[2].parse().unwrap(), args[3].parse().unwrap());
+    return;
+  }
   if args[1] == "fcprobe" {
     fcheck::probe();
     return;
